@@ -40,6 +40,8 @@ LINES = [
     ["Hello there."], ["two", "lines"], ["A" * 32], ["B" * 33], ["x" * 40 + " tail"], ["word " * 9 + "end"],
     ["señor está aquí: qué?"], ["ça va 3 ÷ 4 Ñandú"], ["café ó único"], ["one", "two", "three", "four"],
     ["It's 100% \"fine\" (really) - yes/no; a+b=c # & @ <tag>"], ["  padded   inside  "],
+    # a line longer than a row holding a long (but not over-long) word: rows break at spaces only
+    ["the counterrevolutionaries' plan failed"], ["an incomprehensibilities-laden memo arrived", "uncharacteristically early today"],
     # long cues: three and four lines of 60-80 characters (five and more rows on the screen)
     ["the quick brown fox jumps over the lazy dog and keeps running through the field",
      "while the other animals watch from a safe distance and wonder what is going on",
